@@ -163,9 +163,9 @@ Fixpoint trace (cfg : config) (st : store) (ops : list op) : list out :=
 
 (** ---------------------------------------------------------------- the property, stated on histories
     (independent of the store: it only looks at which registrations the property
-    admits and what they contained) *)
+    accepts and what they contained) *)
 
-(** a registration the property admits *)
+(** a registration the property accepts *)
 Definition reg_okb (cfg : config) (r : registration) : bool :=
   match lookup (r_gid r) (c_groups cfg) with
   | Some g =>
@@ -181,7 +181,7 @@ Definition serve_okb (cfg : config) (q : request) : bool :=
                         | Some g => can_read (q_peer q) g && is_authoritative (c_local cfg) g
                         | None => false end) (q_gids q).
 
-(** the (group, segment) pairs registered by the admitted registrations, in order *)
+(** the (group, segment) pairs registered by the accepted registrations, in order *)
 Definition puts_of (cfg : config) (ops : list op) : list (N * segm) :=
   flat_map (fun o => match o with
                      | OReg r => if reg_okb cfg r then map (fun sg => (r_gid r, sg)) (r_segs r) else []
